@@ -104,6 +104,9 @@ def run(tier="quick", seed=0):
         longs = [8191, 8192, 8193, 20000] if cls.name in CHEAP_LONG else []
         if cls.name == "EASRadio.__call__" and not thorough:
             longs = [8193]
+        if cls.name == "EAS.__call__[threads-4]":
+            longs = [330] if thorough else [230]       # several 100-event partitions evaluated concurrently
+            sel = sel[: max(10, len(sel) // 3)]
         jobs.append({"stage": cls.name, "hists": sel, "seed": seed + 3, "longs": longs})
     res = par.pmap(_stage_job, jobs, workers=14)
     groups = [ev for ev, _ in res]
